@@ -269,10 +269,33 @@ func (p *provider) RoundTrip(r *http.Request) (*http.Response, error) {
 				return nil, fmt.Errorf("dial tcp: connection refused")
 			}
 			if status != 0 {
+				// an overloaded provider or the gateway in front of it says when to come back; how soon the middleware asks again
+				// is its own schedule
+				if status >= 400 {
+					switch n % 4 {
+					case 0:
+						rec.Header().Set("Retry-After", "86400")
+					case 1:
+						rec.Header().Set("Retry-After", time.Now().Add(36*time.Hour).UTC().Format(http.TimeFormat))
+						rec.Header().Set("X-RateLimit-Reset", fmt.Sprint(time.Now().Add(36*time.Hour).Unix()))
+					case 2:
+						rec.Header().Set("Retry-After", "7")
+						rec.Header().Set("Cache-Control", "max-age=31536000")
+					}
+				}
 				rec.WriteHeader(status)
 				rec.WriteString(body)
 				break
 			}
+		}
+		// caching headers as CDNs in front of providers add them (the document is good for an hour in the middleware, whatever they say)
+		switch n % 3 {
+		case 1:
+			rec.Header().Set("Cache-Control", "public, max-age=604800")
+			rec.Header().Set("Expires", time.Now().Add(7*24*time.Hour).UTC().Format(http.TimeFormat))
+		case 2:
+			rec.Header().Set("Cache-Control", "no-store, max-age=0")
+			rec.Header().Set("Age", "86000")
 		}
 		json.NewEncoder(rec).Encode(p.document())
 	case r.URL.Path == "/jwks":
